@@ -722,7 +722,6 @@ func errShape(c *Ctx, scope map[*ssa.Function]bool) {
 	r.Counts["error_returns_inspected"] = n
 }
 
-
 // memoGuarded: the accepting return is taken because `funcExpr.F != nil`, and F is stored nowhere in the module but
 // in this checker (after its validations): the call was validated by an earlier run of the same checker.
 func memoGuarded(t *Tree, f *ssa.Function, ret *ssa.Return) bool {
@@ -763,7 +762,6 @@ func memoGuarded(t *Tree, f *ssa.Function, ret *ssa.Return) bool {
 	}
 	return false
 }
-
 
 // nonEmptyListFields: slice-typed AST fields that every grammar action fills with a list of at least one element:
 // the argument is a non-empty slice literal, or a list symbol all of whose productions start from a one-element
